@@ -209,6 +209,12 @@ def specs(rng):
     rots = Rotation.from_euler('xyz', traj[RPH].values, True)
     add('transform.smooth_rotations', Call('rot', transform.smooth_rotations, [rots, 0.1, 0.5]), Call('rot-0.26', transform.smooth_rotations, [rots, 0.1, 0.26]),
         Call('rot-0.34', transform.smooth_rotations, [rots, 0.1, 0.34]))
+    # Round 6: the same tables on a time origin that is not zero (a function working "in time counted from the first sample" in place)
+    traj_o = traj.set_axis(pd.Index(np.asarray(traj.index, float) + 86.5, name=traj.index.name))
+    add('transform.resample_state', Call('traj-offset-origin', transform.resample_state, [traj_o, t[::3] + 86.513], vary=[1], labelled=[0]))
+    add('transform.compute_state_difference', Call('frames-offset-origin', transform.compute_state_difference, [traj_o, traj_o.iloc[::2] * 1.0],
+                                                   schema=schema_traj_error, labelled=[0, 1]))
+    add('transform.smooth_state', Call('traj-offset-origin', transform.smooth_state, [traj_o, 0.5], labelled=[0]))
     add('transform.smooth_state', Call('traj', transform.smooth_state, [traj, 0.5], labelled=[0]), Call('traj-0.26', transform.smooth_state, [traj, 0.26]),
         Call('traj-0.34', transform.smooth_state, [traj, 0.34]))
     # ---- util
@@ -598,6 +604,19 @@ def run_directed(name, calls, seeds, obs):
                         out.append(vio('not_deterministic', f'{where}: two calls with equal inputs{" and seed " + str(sd) if sd is not None else ""} '
                                        f'differ in {bad[:3]}'))
                     if sd is not None:
+                        # Round 6: an integer seed is an integer whatever its type - the element of np.arange(n) a user loops over, a 0-d array
+                        for guise in (np.int64(sd), np.int32(sd % (2 ** 31 - 1)), np.uint32(sd % (2 ** 31 - 1))):
+                            base = f1
+                            if int(guise) != sd:
+                                _, rb_ = invoke(call, [clone(a) for a in call.args], int(guise))
+                                base = purity.flatten(rb_)
+                            _, rg = invoke(call, [clone(a) for a in call.args], guise)
+                            bump('numpy_integer_seeds')
+                            badg = purity.compare_flat(base, purity.flatten(rg), ulp=0)
+                            if badg:
+                                out.append(vio('seed_type_dependent', f'{where}: seed {int(guise)} given as {type(guise).__name__} does not reproduce the result of the '
+                                               f'same seed given as int: {badg[:3]}'))
+                                break
                         _, r3 = invoke(call, [clone(a) for a in call.args], sd + 1)
                         if not purity.compare_flat(f1, purity.flatten(r3), ulp=0):
                             out.append(vio('seed_ignored', f'{where}: different seeds give identical output'))
